@@ -136,6 +136,19 @@ theorem wire_ip6_last_next (cx : Ctx) (p : Ipv6) :
   · intro hn
     unfold lastNext; rw [hn]; rfl
 
+/-- the source and destination addresses lie at bytes 8..39 of the fixed header -/
+theorem wire_ip6_addrs (cx : Ctx) (p : Ipv6) (h : p.Inv) (region : Bytes) (hr : p.hdr ≤ region.length) :
+    ∃ out, p.write cx region = .ok out ∧ (out.drop 8).take 32 = p.src ++ p.dst := by
+  refine ⟨_, ipv6_write_eq cx p h region hr, ?_⟩
+  have e : (Ipv6.written cx p region.length).headerBytes ++ flatHeaders (Ipv6.wireHeaders cx p) ++ region.drop p.hdr =
+      ([UInt8.ofNat (p.version * 16 + p.trafficClass / 16), UInt8.ofNat (p.trafficClass % 16 * 16 + p.flowLabel / 65536),
+        UInt8.ofNat (p.flowLabel / 256 % 256), UInt8.ofNat (p.flowLabel % 256)] ++
+        OutCursor.beBytes 2 (Ipv6.written cx p region.length).payloadLength ++
+        [UInt8.ofNat (Ipv6.written cx p region.length).nextHeader, UInt8.ofNat p.hopLimit]) ++
+        ((p.src ++ p.dst) ++ (flatHeaders (Ipv6.wireHeaders cx p) ++ region.drop p.hdr)) := by
+    simp [Ipv6.headerBytes, Ipv6.written, List.append_assoc]
+  rw [e, List.drop_left' (by simp), List.take_left' (by simp [h.src, h.dst])]
+
 /-! ### non-vacuity -/
 
 /-- IPv6 with a hop-by-hop header (5 data bytes: 7 modulo 8, one byte of padding) and a destination-options header in
